@@ -4,6 +4,8 @@ package main
 
 import (
 	"context"
+	"encoding/binary"
+	"io"
 	"errors"
 	"fmt"
 	"math/rand"
@@ -28,6 +30,8 @@ import (
 	"github.com/segmentio/kafka-go/protocol/listoffsets"
 	meta "github.com/segmentio/kafka-go/protocol/metadata"
 	"github.com/segmentio/kafka-go/protocol/produce"
+	"github.com/segmentio/kafka-go/protocol/saslauthenticate"
+	"github.com/segmentio/kafka-go/protocol/saslhandshake"
 	"kverif/kvfmt"
 )
 
@@ -38,6 +42,7 @@ type jent struct {
 	magic    int8 // produce requests: the record format (RecordSet.Version) the broker decoded
 	groups   string // describe-groups requests: the groups named, hex, joined by "+"
 	client   string // the client id of the request header
+	conn     int    // which connection of the fake the request arrived on
 }
 
 type fcAnswer struct {
@@ -60,6 +65,7 @@ type fake struct {
 	mdMode  int                    // Metadata requests: 0 answered, 1 left unanswered until resume, 2 connection closed
 	mdFault int                    // Metadata requests received while mdMode != 0
 	resume  chan struct{}
+	nconn   int
 	journal []jent
 	conns   []net.Conn
 }
@@ -91,13 +97,40 @@ func (f *fake) closeAll() {
 
 func (f *fake) serve(b *fakeBroker, conn net.Conn) {
 	defer conn.Close()
+	f.mu.Lock()
+	f.nconn++
+	connID := f.nconn
+	f.mu.Unlock()
+	rawToken := false
 	for {
+		if rawToken {
+			// after a v0 SaslHandshake the client sends the bare length-prefixed token
+			rawToken = false
+			var lb [4]byte
+			if _, err := io.ReadFull(conn, lb[:]); err != nil {
+				return
+			}
+			tok := make([]byte, binary.BigEndian.Uint32(lb[:]))
+			if _, err := io.ReadFull(conn, tok); err != nil {
+				return
+			}
+			f.mu.Lock()
+			f.journal = append(f.journal, jent{broker: b.id, key: 36, ver: -1, conn: connID})
+			f.mu.Unlock()
+			if _, err := conn.Write([]byte{0, 0, 0, 0}); err != nil {
+				return
+			}
+			continue
+		}
 		ver, corr, clientID, msg, err := protocol.ReadRequest(conn)
 		if err != nil {
 			return
 		}
 		f.mu.Lock()
-		e := jent{broker: b.id, key: int16(msg.ApiKey()), ver: ver, client: clientID}
+		e := jent{broker: b.id, key: int16(msg.ApiKey()), ver: ver, client: clientID, conn: connID}
+		if _, ok := msg.(*saslhandshake.Request); ok && ver == 0 {
+			rawToken = true
+		}
 		if q, ok := msg.(*describegroups.Request); ok {
 			l := make([]string, len(q.Groups))
 			for i, g := range q.Groups {
@@ -210,6 +243,10 @@ func (f *fake) answer(b *fakeBroker, msg protocol.Message, ver int16) protocol.M
 			r.Groups = append(r.Groups, rg)
 		}
 		return r
+	case *saslhandshake.Request:
+		return &saslhandshake.Response{Mechanisms: []string{"PLAIN"}}
+	case *saslauthenticate.Request:
+		return &saslauthenticate.Response{}
 	case *heartbeat.Request:
 		return &heartbeat.Response{}
 	case *leavegroup.Request:
@@ -380,7 +417,7 @@ func runE2E(r *rand.Rand, scenario int) {
 		var l []meta.ResponseBroker
 		for _, i := range r.Perm(len(live)) {
 			h, p := hostOf(live[i].addr)
-			l = append(l, meta.ResponseBroker{NodeID: live[i].id, Host: h, Port: p})
+			l = append(l, meta.ResponseBroker{NodeID: live[i].id, Host: h, Port: p, Rack: rackOf(live[i].addr)})
 		}
 		return l
 	}
@@ -390,8 +427,9 @@ func runE2E(r *rand.Rand, scenario int) {
 		t := meta.ResponseTopic{Name: fmt.Sprintf("t%d", (i*7+3)%10)}
 		np := 1 + r.Intn(4)
 		for j := 0; j < np; j++ {
-			t.Partitions = append(t.Partitions, meta.ResponsePartition{PartitionIndex: int32(np - 1 - j), LeaderID: live[r.Intn(len(live))].id,
-				ReplicaNodes: []int32{}, IsrNodes: []int32{}, OfflineReplicas: []int32{}})
+			pp := meta.ResponsePartition{PartitionIndex: int32(np - 1 - j), LeaderID: live[r.Intn(len(live))].id}
+			genReplicas(r, md, &pp, feat, false) // offline replicas only exist from Metadata v5 on: left empty
+			t.Partitions = append(t.Partitions, pp)
 		}
 		md.Topics = append(md.Topics, t)
 	}
@@ -597,7 +635,8 @@ func runE2E(r *rand.Rand, scenario int) {
 	}
 
 	created := 0
-	for phase := 0; phase < 4; phase++ {
+	var moved *fakeBroker
+	for phase := 0; phase < 6; phase++ {
 		before := current()
 		pf := "phase0-initial"
 		f.mu.Lock()
@@ -642,6 +681,22 @@ func runE2E(r *rand.Rand, scenario int) {
 				}
 			}
 			f.md.ControllerID = live[r.Intn(len(live))].id
+		case 4, 5: // a broker is re-registered under the same id: at a new address / with a new rack only
+			pf = "phase4-broker-moved-to-new-address"
+			moved = live[1+r.Intn(len(live)-1)]
+			if phase == 4 {
+				oh, op := hostOf(moved.addr)
+				delete(f.brokers, fmt.Sprintf("%s:%d", oh, op)) // nobody listens at the old address any more
+				moved.addr += 0x100
+				nh, np := hostOf(moved.addr)
+				f.brokers[fmt.Sprintf("%s:%d", nh, np)] = moved
+			} else {
+				pf = "phase5-broker-changed-rack-only"
+				moved.addr += 1 << rackShift
+			}
+			f.md.Brokers = mkBrokers()
+			t := &f.md.Topics[r.Intn(len(f.md.Topics))]
+			t.Partitions[r.Intn(len(t.Partitions))].LeaderID = moved.id
 		}
 		f.mu.Unlock()
 		after := current()
@@ -676,7 +731,46 @@ func runE2E(r *rand.Rand, scenario int) {
 		if phase == 0 {
 			lagf = "first-view"
 		}
+		// Client.Metadata through the transport: the public view of the cached answer
+		{
+			m := current()
+			var names []string
+			if r.Intn(3) != 0 {
+				for i, k := 0, 1+r.Intn(3); i < k; i++ {
+					names = append(names, m.Topics[r.Intn(len(m.Topics))].Name)
+				}
+				if r.Intn(3) == 0 {
+					names = append(names, "missing")
+				}
+			}
+			cl := &kafka.Client{Addr: bootAddr, Transport: tr}
+			ctx, cancel := context.WithTimeout(context.Background(), 8*time.Second)
+			cres, cerr := cl.Metadata(ctx, &kafka.MetadataRequest{Topics: names})
+			cancel()
+			out := "err"
+			if cerr == nil {
+				out = encClientMetadata(cres)
+			}
+			emit("cmeta", encNames(names)+" "+encMd(m), out, fs+","+pf+",through-transport")
+		}
+		if phase >= 4 {
+			// requests for the partitions the re-registered broker leads must reach it
+			m := current()
+			for _, t := range m.Topics {
+				for _, p := range t.Partitions {
+					if p.LeaderID != moved.id {
+						continue
+					}
+					ts := []tp{{topic: t.Name, parts: []int32{p.PartitionIndex}}}
+					q := e2eReq{enc: "f=" + encTps(ts), msg: fetchReq(ts), fc: "-"}
+					emit("e2e", strings.Join([]string{bootS, encMd(m), vers, client, q.enc, q.fc}, " "), doReq(q), fs+","+pf+","+lagf+",fetch,moved-broker")
+				}
+			}
+		}
 		nreq := 8 + r.Intn(5)
+		if phase >= 4 {
+			nreq = 3
+		}
 		for i := 0; i < nreq; i++ {
 			m := current()
 			q := genReq(m, &created)
